@@ -25,6 +25,9 @@ impl SharedSystem {
     pub fn clone(&self) -> (r: SharedSystem) ensures r == *self { unimplemented!() }
     // System::delete_client (interior mutability behind the shared lock, R6): unit client_disconnect proves what it does to the
     // client table and the consumer-group memberships; here only THAT it is called, for which id, how often
+    // STATED, NOT LINKED (link pass 2): `removed()` is a history (event log of the calls), not a function of any state of the real System, and
+    // the stand-in is opaque: the real preconditions (members_wf, cm_ids_nonzero — the latter is what keeps `Identifier::numeric(id).unwrap()`
+    // from panicking, client_disconnect [C06.nopanic.delete_client]) cannot be stated here. Assumed: the call returns.
     #[verifier::external_body]
     pub fn delete_client(&mut self, client_id: u32)
         ensures final(self).removed() == old(self).removed().push(client_id),
